@@ -172,7 +172,7 @@ func checkC20(c *Ctx, p *Prog, r *Result) {
 
 	// (1b) default ports never override an explicit one
 	r.rule("C20.default-port-guarded", "in the URL interpreter a constant default port is assigned to the port variable only where that variable was found empty (so an explicit port instruction wins regardless of instruction order)")
-	r.floor("C20.default-port-guarded", 3)
+	r.floor("C20.default-port-guarded", 1)
 	for fn := range region {
 		k := 0
 		for _, b := range fn.Blocks {
@@ -185,12 +185,8 @@ func checkC20(c *Ctx, p *Prog, r *Result) {
 					continue
 				}
 				for i, e := range phi.Edges {
-					c, ok := e.(*ssa.Const)
-					if !ok || c.Value == nil {
-						continue
-					}
-					sv, _ := unquote(c.Value.ExactString())
-					if sv == "" || strings.Trim(sv, "0123456789") != "" {
+					sv, ok := defaultPortValue(p, e)
+					if !ok {
 						continue
 					}
 					k++
@@ -311,4 +307,50 @@ func returnsNil(b *ssa.BasicBlock) bool {
 		return false
 	}
 	return false
+}
+
+// defaultPortValue: v is a constant string of digits, or the result of a module
+// function one of whose returns yields such a constant for that result (a
+// protocol -> default port table kept in a helper).
+func defaultPortValue(p *Prog, v ssa.Value) (string, bool) {
+	digits := func(x ssa.Value) (string, bool) {
+		c, ok := x.(*ssa.Const)
+		if !ok || c.Value == nil {
+			return "", false
+		}
+		sv, err := unquote(c.Value.ExactString())
+		if err != nil || sv == "" || strings.Trim(sv, "0123456789") != "" {
+			return "", false
+		}
+		return sv, true
+	}
+	if sv, ok := digits(v); ok {
+		return sv, true
+	}
+	idx := 0
+	var call *ssa.Call
+	switch x := v.(type) {
+	case *ssa.Extract:
+		call, _ = x.Tuple.(*ssa.Call)
+		idx = x.Index
+	case *ssa.Call:
+		call = x
+	}
+	if call == nil {
+		return "", false
+	}
+	body := p.body(call.Common().StaticCallee())
+	if body == nil {
+		return "", false
+	}
+	for _, b := range body.Blocks {
+		ret, ok := b.Instrs[len(b.Instrs)-1].(*ssa.Return)
+		if !ok || idx >= len(ret.Results) {
+			continue
+		}
+		if sv, ok := digits(returnValue(ret, idx)); ok {
+			return "table in " + p.FuncName(body) + " (e.g. " + sv + ")", true
+		}
+	}
+	return "", false
 }
